@@ -65,6 +65,23 @@ P = {
             "exhaustive enumeration of (operator, empty-input subset, header shape) vs reference", "4/C20"),
 }
 
+# shared sub-checks registered per operator family (pv/reuse.py, pv/names.py, pv/fluent.py)
+SHARED = {
+    "reuse": ("; second use of one view object (iterate, edit the source lists incl. the column layout, iterate again) vs a freshly "
+              "built view", "; differential old-view vs fresh-view histories"),
+    "names": ("; field names that are objects (not str) of the same text vs the str-named table", "; metamorphic field-name relation"),
+    "fluent": ("; every Table method of the family is the module-level function object (exhaustive)", "; exhaustive method-identity check"),
+}
+HAS = {
+    "reuse": ["C04", "C05", "C06", "C07", "C08", "C09", "C10", "C12", "C13", "C14", "C16"],
+    "names": ["C05", "C06", "C07", "C08", "C09", "C10", "C12", "C13", "C14", "C16"],
+    "fluent": ["C02", "C04", "C05", "C06", "C07", "C08", "C09", "C10", "C12", "C13", "C14", "C15", "C16", "C17"],
+}
+for _k, (_t, _q) in SHARED.items():
+    for _pid in HAS[_k]:
+        _text, _tech, _ref = P[_pid]
+        P[_pid] = (_text + _t, _tech + _q, _ref)
+
 NOTE = ("Bounded exploration: verdict holds for the generated cases only (table sizes, pools, schedule lengths and case counts "
         "are reported in the evidence). Trusted base: the reference models in pv/ref and pv/order.py, Hypothesis, CPython 3.12, "
         "stdlib csv/pickle/json/sqlite3. Runs /repo's working tree via PYTHONPATH; no hooks in /repo.")
